@@ -122,6 +122,15 @@ type Env struct {
 	Scratch string // private scratch dir (under /dev/shm), removed by the parent
 	Self    string // path of the running binary
 	Replay  bool
+	NoteFn  func(s string)
+}
+
+// Note records (in the case journal) what the worker is about to do, so that a fatal death of the
+// process can be attributed to a sub-case.
+func (e *Env) Note(s string) {
+	if e.NoteFn != nil {
+		e.NoteFn(s)
+	}
 }
 
 // Aggregate is the parent's view after all workers finished.
@@ -161,7 +170,7 @@ type Check struct {
 	WallSec   int // per-batch wall-clock watchdog (default 900); firing is inconclusive
 	BatchMax  int // max cases per worker process (default: spread evenly)
 	NoRlimitAS bool
-	DeathKey   func(c Case, class, stderr string) string
+	DeathKey   func(c Case, class, stderr, note string) string
 }
 
 var registry = map[string]*Check{}
